@@ -148,6 +148,21 @@ Theorem c06_instance_stored_alert_was_published_and_routed cfg t0 h s outs k g b
   exists t ls, In (t, IAlert ls (a_starts b) (a_ends b) (a_upd b)) h /\ assoc (ic_ids cfg) ls = Some (a_id b) /\ k ∈ targets cfg ls.
 Proof. exact (stored_alert_was_published_and_routed cfg t0 h s outs k g b). Qed.
 
+(* ---- the route key lists each route's matchers in ONE canonical order (label name, then value, then kind), whatever
+   order and syntax (match / match_re maps, matchers list) they are written in: the key - prefix of every group key,
+   notification-log key and marker key under the route - is the same on every load, instance and restart. Tied per
+   generated route by Run/C06KRun.v; the key's text rendering is checked by the harness's own reference. ---- *)
+From Coq Require Import Sorting.Sorted Sorting.Permutation.
+From AM Require Import Proofs.RouteProofs.
+
+Theorem c06_route_key_independent_of_written_order c c' :
+  Permutation (rc_match c) (rc_match c') -> Permutation (rc_match_re c) (rc_match_re c') ->
+  Permutation (rc_matchers c) (rc_matchers c') -> build_matchers c = build_matchers c'.
+Proof. exact (build_matchers_order_irrelevant c c'). Qed.
+
+Theorem c06_route_matchers_order_is_canonical l s : Permutation s l -> StronglySorted m_le s -> s = m_sort l.
+Proof. exact (sorted_is_m_sort l s). Qed.
+
 Print Assumptions c06_groups_are_the_partition.
 Print Assumptions c06_never_split_under_any_schedule.
 Print Assumptions c06_insert_never_lost_under_any_schedule.
@@ -207,3 +222,4 @@ Proof. vm_compute. split; reflexivity. Qed.
 Print Assumptions c06_ingest_refire_gets_fresh_group_wait.
 Print Assumptions c06_ingest_is_a_group_run.
 Print Assumptions c06_ingest_store_is_the_provider_history.
+Print Assumptions c06_route_key_independent_of_written_order.
